@@ -270,19 +270,21 @@ func (p *CodeBuilder) startFuncBody(fn *Func, src []ast.Node, old *funcBodyCtx) 
 	p.startBlockStmt(fn, src, "func "+fn.Name(), &old.codeBlockCtx)
 	scope := p.current.scope
 	sig := fn.Type().(*types.Signature)
-	insertParams(scope, sig.Params())
-	insertParams(scope, sig.Results())
+	p.insertParams(scope, sig.Params())
+	p.insertParams(scope, sig.Results())
 	if recv := sig.Recv(); recv != nil {
 		scope.Insert(recv)
+		p.pkg.useName(recv.Name())
 	}
 	return p
 }
 
-func insertParams(scope *types.Scope, params *types.Tuple) {
+func (p *CodeBuilder) insertParams(scope *types.Scope, params *types.Tuple) {
 	for i, n := 0, params.Len(); i < n; i++ {
 		v := params.At(i)
 		if name := v.Name(); name != "" && name != "_" {
 			scope.Insert(v)
+			p.pkg.useName(name) // a package referenced in the body must not be imported under this name
 		}
 	}
 }
